@@ -347,7 +347,7 @@ def rule_r4(chk, rid="C01-R4"):
         consts.add("solution.Ka")
     found = sorted(c.split(".")[1] for c in consts)
     chk.ob(rid, "fords.solutions.Solution.create_deviation_solution[zeroed == additive constants]", (zeroed == found) if zeroed else None,
-           f"zeroed {zeroed}; additive constants of the recursions {found}" if zeroed else "no zeroing statement recognised", m.loc(f), sure=bool(zeroed))
+           f"zeroed {zeroed}; additive constants of the recursions {found}" if zeroed else "no zeroing statement recognised", m.loc(f), sure=bool(zeroed) and set(zeroed) < set(found))   # an additive constant left in: cannot be an artefact of under-reading the recursions
     for q in ("simulate_flat", "_simulate_measurement", "_simulate_conditional"):
         g = sm.func(q)
         c = calls_to(g, "model_v._gets_solution")
